@@ -152,6 +152,11 @@ func checkC15(e *Env) {
 							unk = w[pos] + "\u0301"
 							sub = "extra-combining-mark"
 						case 11:
+							if rep%2 == 1 {
+								unk = []string{"q", "z", "1", "-", "qz"}[r.Intn(5)]
+								sub = "very-short-token"
+								break
+							}
 							unk = strings.Repeat("k", []int{70, 300, 900, 5000, 70000}[rep%5]) + itoa(r.Intn(1000))
 							sub = "long-token"
 						}
